@@ -12,7 +12,7 @@ Only then is /verif/seeded/<id>/ written (patch.diff, demo files, run.sh, notes.
 import sys, os, subprocess, shutil, json, tempfile, time
 
 def sh(cmd, **kw):
-    return subprocess.run(cmd, shell=True, stdout=subprocess.PIPE, stderr=subprocess.STDOUT, text=True, **kw)
+    return subprocess.run(cmd, shell=True, stdout=subprocess.PIPE, stderr=subprocess.STDOUT, text=True, errors='replace', **kw)
 
 def main():
     src, pid, sid = sys.argv[1:4]
